@@ -176,29 +176,41 @@ Definition url_of := url_with escape_gk.
 Definition url_of_orig := url_with escape_gk_orig.
 
 Inductive meth := PUT | POST | DELETE.
-Inductive body := BodyExposition | BodyEmpty.     (* generate_latest(registry) | b'' *)
 Definition meth_name (m : meth) : str :=
   match m with PUT => [80; 85; 84] | POST => [80; 79; 83; 84] | DELETE => [68; 69; 76; 69; 84; 69] end.
 
 Inductive api := Push | PushAdd | Delete.          (* the three public functions *)
 Definition api_meth (a : api) : meth := match a with Push => PUT | PushAdd => POST | Delete => DELETE end.
 
-(* what the handler is called with; the timeout is whatever the caller gave (type T) *)
+(* what the handler is called with; the timeout is whatever the caller gave (type T); the body is a byte string *)
 Record request (T : Type) := mkReq {
-  rq_url : str; rq_method : str; rq_timeout : T; rq_headers : list (str * str); rq_body : body }.
+  rq_url : str; rq_method : str; rq_timeout : T; rq_headers : list (str * str); rq_body : list N }.
 Arguments mkReq {T}. Arguments rq_url {T}. Arguments rq_method {T}. Arguments rq_timeout {T}.
 Arguments rq_headers {T}. Arguments rq_body {T}.
 
+(* `expo` is generate_latest(registry), the text exposition of the registry the caller gave (outside this model:
+   C03/C05); ANY byte string, the empty one included (a registry without collectors, or whose collectors yield
+   nothing).  The code has no branch on it: `data = b''` for DELETE, `data = generate_latest(registry)` otherwise. *)
+Definition body_of (m : meth) (expo : list N) : list N := match m with DELETE => [] | _ => expo end.
+
 Section Request.
   Variable esc : str -> str -> res (str * str).
-  Definition request_with {T} (a : api) (has_scheme : bool) (gw job : str) (gk : list (str * str)) (timeout : T)
-    : res (request T) :=
+  Definition request_with {T} (a : api) (has_scheme : bool) (gw job : str) (gk : list (str * str)) (expo : list N)
+      (timeout : T) : res (request T) :=
     do u <- url_with esc (gateway_base has_scheme gw) job gk;
-    Ok (mkReq u (meth_name (api_meth a)) timeout [(CT_NAME, CT_TEXT)]
-              (match api_meth a with DELETE => BodyEmpty | _ => BodyExposition end)).
+    Ok (mkReq u (meth_name (api_meth a)) timeout [(CT_NAME, CT_TEXT)] (body_of (api_meth a) expo)).
+
+  (* the whole effect of one call of a public function: the list of requests given to the handler, in order; the
+     callable the handler returns for a request is invoked once, right away.  _use_gateway ends in
+     `handler(url=..., method=..., timeout=..., headers=..., data=...)()` on every path that does not raise. *)
+  Definition calls_with {T} (a : api) (has_scheme : bool) (gw job : str) (gk : list (str * str)) (expo : list N)
+      (timeout : T) : res (list (request T)) :=
+    do r <- request_with a has_scheme gw job gk expo timeout; Ok [r].
 End Request.
 Definition request_of {T} := @request_with escape_gk T.
 Definition request_of_orig {T} := @request_with escape_gk_orig T.
+Definition calls_of {T} := @calls_with escape_gk T.
+Definition calls_of_orig {T} := @calls_with escape_gk_orig T.
 
 (* ====================================================================================================
    The Pushgateway side
@@ -344,11 +356,10 @@ Definition pg_decode_form := pg_decode_text true.      (* a form-style reader: '
 (* ---------- driver entry points (basic types only, names unique across the extracted models) ---------- *)
 Definition gw_api_of_code (n : N) : api := if n =? 0 then Push else if n =? 1 then PushAdd else Delete.
 Definition gw_request_cmd (repaired : bool) (api_code : N) (has_scheme : bool) (gw job : str)
-    (gk : list (str * str)) (timeout : N)
-  : res (str * (str * (N * (list (str * str) * bool)))) :=
-  do r <- (if repaired then request_of else request_of_orig) (gw_api_of_code api_code) has_scheme gw job gk timeout;
-  Ok (rq_url r, (rq_method r, (rq_timeout r, (rq_headers r,
-      match rq_body r with BodyExposition => true | BodyEmpty => false end)))).
+    (gk : list (str * str)) (expo : list N) (timeout : N)
+  : res (list (str * (str * (N * (list (str * str) * list N))))) :=
+  do l <- (if repaired then calls_of else calls_of_orig) (gw_api_of_code api_code) has_scheme gw job gk expo timeout;
+  Ok (map (fun r => (rq_url r, (rq_method r, (rq_timeout r, (rq_headers r, rq_body r))))) l).
 Definition gw_decode_cmd (plus_is_space : bool) (base url : str) : res (list (str * str)) :=
   pg_decode_text plus_is_space base url.
 Definition gw_decode_bytes_cmd (plus_is_space : bool) (base url : str) : res (list (str * list N)) :=
